@@ -37,7 +37,6 @@ func (h *headWriter) Write(p []byte) (int, error) {
 	return len(p), nil
 }
 
-
 // crashInRepo reports whether a Go runtime "fatal error: concurrent map ..."
 // report's faulting goroutine was executing deps.dev code (the first frame
 // outside the runtime belongs to a deps.dev package).
